@@ -580,6 +580,10 @@ func (prop) Execute(scAny any, phase string, log *core.Log) core.Result {
 	rd := simio.NewReader(data, s.Read)
 	rd.MaxCalls = len(data) + 64 + 8*len(s.Read.Dirs)
 	if p := core.Guard(func() { g, derr = lib.Read(rd.With(s.RCap)) }); p != "" {
+		if rd.Runaway {
+			res.Fail("runaway-reader", "runaway-reader", "Read went on calling the reader (%d calls for %d bytes) although it kept refusing", len(rd.Calls), len(data))
+			return res
+		}
 		res.Fail("panic", "panic:read:"+core.PanicSite(p), "Read panicked on %s: %s", short(data), p)
 		return res
 	}
